@@ -24,6 +24,32 @@ PARAMS = {  # property -> (quick: len, cuts), (thorough: len, cuts)
 }
 
 
+def sync_tree(src, dst, items=("src", "Cargo.toml", "Cargo.lock", "build.rs", "README.md", "benches")):
+    """content-aware mirror of the crate: a file is rewritten (new mtime) iff its bytes differ, so cargo's mtime-based
+    fingerprints are exact even if the tree was edited and restored by a tool that preserves timestamps"""
+    os.makedirs(dst, exist_ok=True)
+    want = set()
+    for it in items:
+        sp = os.path.join(src, it)
+        if os.path.isfile(sp):
+            want.add(it)
+        elif os.path.isdir(sp):
+            for root, _d, files in os.walk(sp):
+                for fn in files:
+                    want.add(os.path.relpath(os.path.join(root, fn), src))
+    for rel in want:
+        a, b = os.path.join(src, rel), os.path.join(dst, rel)
+        data = open(a, "rb").read()
+        if not os.path.exists(b) or open(b, "rb").read() != data:
+            os.makedirs(os.path.dirname(b), exist_ok=True)
+            open(b, "wb").write(data)
+    for root, _d, files in os.walk(dst):
+        for fn in files:
+            rel = os.path.relpath(os.path.join(root, fn), dst)
+            if rel not in want:
+                os.remove(os.path.join(root, fn))
+
+
 def run(name, repo="/repo", work=None, tier="quick", prop=None, seed=0):
     t0 = time.time()
     res = dict(status="inconclusive", reason="", cases=0, bound="", violations=[], cmds=[], known_hits=[])
@@ -34,29 +60,50 @@ def run(name, repo="/repo", work=None, tier="quick", prop=None, seed=0):
     (ql, qc), (tl, tc) = PARAMS[prop]
     ln, cuts = (ql, qc) if tier == "quick" else (tl, tc)
     work = work or os.path.join(ROOT, "build")
-    crate = os.path.join(work, "bounded_crate")
+    crate = os.path.join(ROOT, "build", "bounded_crate_" + __import__("hashlib").sha1(os.path.abspath(repo).encode()).hexdigest()[:8])
     os.makedirs(os.path.join(crate, "src"), exist_ok=True)
+    key = __import__("hashlib").sha1(os.path.abspath(repo).encode()).hexdigest()[:8]
+    os.makedirs(os.path.join(ROOT, "build"), exist_ok=True)
+    lockf = open(os.path.join(ROOT, "build", f"bounded_{key}.lock"), "w")
+    __import__("fcntl").flock(lockf, __import__("fcntl").LOCK_EX)   # one sync+build at a time per repo path (checks run concurrently)
+
+    def put(path, text):
+        if not os.path.exists(path) or open(path).read() != text:
+            open(path, "w").write(text)
     for fn in os.listdir(os.path.join(ROOT, "bounded", "src")):
-        open(os.path.join(crate, "src", fn), "w").write(open(os.path.join(ROOT, "bounded", "src", fn)).read())
-    ct = open(os.path.join(ROOT, "bounded", "Cargo.toml.in")).read().replace("@REPO@", os.path.abspath(repo))
-    open(os.path.join(crate, "Cargo.toml"), "w").write(ct)
+        put(os.path.join(crate, "src", fn), open(os.path.join(ROOT, "bounded", "src", fn)).read())
+    mirror = os.path.join(ROOT, "build", "bounded_src_" + key)
+    sync_tree(repo, mirror)
+    ct = open(os.path.join(ROOT, "bounded", "Cargo.toml.in")).read().replace("@REPO@", mirror)
+    put(os.path.join(crate, "Cargo.toml"), ct)
     lock = os.path.join(repo, "Cargo.lock")
     if os.path.exists(lock):
-        open(os.path.join(crate, "Cargo.lock"), "w").write(open(lock).read())
+        put(os.path.join(crate, "Cargo.lock"), open(lock).read())
     target = os.path.join(ROOT, "build", "bounded_target_" + __import__("hashlib").sha1(os.path.abspath(repo).encode()).hexdigest()[:8])
     env = dict(os.environ, CARGO_NET_OFFLINE="true", CARGO_TARGET_DIR=target)
     b = subprocess.run(["cargo", "build", "--release", "--offline", "-q"], cwd=crate, env=env, capture_output=True, text=True)
     if b.returncode != 0:
         res["reason"] = "bounded executor does not build against the current tree: " + b.stderr[-500:]
         return res
-    exe = os.path.join(target, "release", "bounded")
+    # run a private copy of the binary so that a concurrent rebuild cannot replace it under us
+    exe = os.path.join(work, f"bounded_{prop}_{os.getpid()}")
+    __import__("shutil").copy(os.path.join(target, "release", "bounded"), exe)
+    lockf.close()
     cmd = [exe, prop, str(ln), str(cuts), str(seed)]
     res["cmds"].append(f"bounded {prop} {ln} {cuts}  (built from /verif/bounded against {repo})")
     try:
         p = subprocess.run(cmd, capture_output=True, text=True, timeout=3000)
     except subprocess.TimeoutExpired:
         res["reason"] = "bounded executor timed out"
+        try:
+            os.remove(exe)
+        except OSError:
+            pass
         return res
+    try:
+        os.remove(exe)
+    except OSError:
+        pass
     line = p.stdout.strip().split("\n")[-1] if p.stdout.strip() else ""
     try:
         j = json.loads(line)
